@@ -51,6 +51,14 @@ impl FeoxStore {
         self.version_clock.shards[shard].load(Ordering::Relaxed)
     }
 
+    pub fn verif_disk_usage(&self) -> u64 {
+        self.stats.disk_usage.load(Ordering::Relaxed)
+    }
+
+    pub fn verif_free_total(&self) -> u64 {
+        self.free_space.read().get_total_free()
+    }
+
     pub fn verif_format_version(&self) -> u32 {
         self.format_version
     }
